@@ -308,6 +308,8 @@ impl<H: Hal, T: Transport, const RX_BUFFER_SIZE: usize>
                 return Ok(event);
             } else {
                 spin_loop();
+                #[cfg(virtio_drivers_verif)]
+                crate::verif::emit(crate::verif::Event::Spin(3));
             }
         }
     }
